@@ -152,10 +152,31 @@ def build_records(insts, base, seed, start_id=0):
 
 
 # ----------------------------------------------------------------------------------------------
-def judge(chk, recs, shuffle_rnd=None):
+def cost(rec):
+    """relative TLC cost of a record (bit-serial division dominates)"""
+    c = 30.0 if rec['i']['mn'] in ('div', 'idiv') else 1.0
+    return c * rec['ns']
+
+
+def balance(recs, rnd, min_per_shard=4):
+    """order the records so that core.judge's contiguous shards carry equal cost (longest-processing-time first)"""
+    n = len(recs)
+    shards = max(1, min(core.NCPU, (n + min_per_shard - 1) // min_per_shard))
+    per = (n + shards - 1) // shards
+    caps = [min(per, max(0, n - k * per)) for k in range(shards)]
+    bins = [[] for _ in range(shards)]
+    load = [0.0] * shards
     rs = list(recs)
-    if shuffle_rnd is not None:
-        shuffle_rnd.shuffle(rs)
+    rnd.shuffle(rs)
+    for r in sorted(rs, key=cost, reverse=True):
+        k = min((k for k in range(shards) if len(bins[k]) < caps[k]), key=lambda k: load[k])
+        bins[k].append(r)
+        load[k] += cost(r)
+    return [r for b in bins for r in b]
+
+
+def judge(chk, recs, shuffle_rnd=None):
+    rs = balance(recs, shuffle_rnd, 4) if shuffle_rnd is not None else list(recs)
     verdicts, st = core.judge('T_C04', rs, timeout=3000, min_per_shard=4)
     chk.add_tlc(st)
     stats = [v for v in verdicts if v['id'] == -1]
